@@ -1,6 +1,6 @@
 CONSTANTS
   Grids <- QuickGrids
-  Modes = {"ok", "norefresh", "failvalid"}
+  Modes = {"ok", "norefresh", "failvalid", "form"}
   Stores = {"cookie", "redis"}
   MaxReqs = 2
   ExpireCheck = TRUE
